@@ -138,9 +138,10 @@ def main():
                 need(False, "spawn_session: unrecognised guard `.started.%s` (accesses: %s)" % (op, accesses))
 
     # ---------------------------------------------------------------- single exit of run_session
-    order, n_ret, n_end, n_end_skip = [], None, None, None
+    order, n_ret, n_end, n_end_skip, exit_gate = [], None, None, None, None
     rs = fn_body(se, r"pub\s+async\s+fn\s+run_session\s*\(")
     if need(rs is not None, "session.rs: fn run_session not found"):
+        rs = re.sub(r"#\[cfg\(rip_verif\)\]\s*rip_kernel::verif::point\(\s*\"[^\"]*\"\s*\)\s*;", "", rs)
         n_ret = len(re.findall(r"\breturn\b", rs)) + len(re.findall(r"\)\s*\?|\w\s*\?\s*[;.)]", rs))
         # the end frames the function emits itself, each followed by `skip_runtime_loop = true` before its block closes
         ends = [x.start() for x in re.finditer(r"EventKind::SessionEnded\s*\{", rs)]
@@ -173,21 +174,71 @@ def main():
                 (1, r"let\s+guard\s*=\s*events\.lock\(\)\.await\s*;"),
                 (2, r"let\s+reason\s*=\s*guard\s*\.iter\(\)\s*\.rev\(\)\s*\.find_map\(\s*\|event\|\s*match\s+&event\.kind\s*\{\s*EventKind::SessionEnded\s*\{\s*reason\s*\}\s*=>\s*Some\(reason\.clone\(\)\)"),
                 (3, r"write_snapshot\s*\("),
-                (4, r"if\s+let\s+Some\(link\)\s*=\s*continuity_run\s*\{\s*let\s+_\s*=\s*continuities\.append_run_ended\s*\(\s*&link\.continuity_id\s*,\s*&link\.message_id\s*,\s*&runtime_session_id\s*,\s*reason\s*,"),
+                (4, r"let\s+_\s*=\s*continuities\.append_run_ended\s*\(\s*&link\.continuity_id\s*,\s*&link\.message_id\s*,\s*&runtime_session_id\s*,\s*reason\s*,"),
             ]
             pos = []
             for k, rx in marks:
                 hits = [x.start() for x in re.finditer(rx, tail)]
                 if need(len(hits) == 1, "run_session: closing step %d found %d times" % (k, len(hits))):
                     pos.append((hits[0], k))
-            order = [k for _, k in sorted(pos)]
             need(len(re.findall(r"append_run_ended\s*\(", rs)) == 1, "run_session: append_run_ended is not called exactly once")
-            # nothing after the run_ended block
+            # ---- the exit gate: what the append of run_ended is conditional on.
+            #  * the blocks that enclose the call (outermost first), each with its header (the text in front of its `{`);
+            #  * the statement that calls write_snapshot: `let _ = write_snapshot(..);` (result discarded) or
+            #    `let <name> = write_snapshot(..);` (result kept under <name>).
+            #  A header `if let Some(link) = continuity_run` is the link test (no side write).  A header that tests the kept
+            #  snapshot result (`<name>` inside the header, e.g. `if let (Some(link), Ok(_)) = (continuity_run, <name>)`,
+            #  `if <name>.is_ok()`, `if let Ok(..) = <name>`) or calls write_snapshot itself puts SwSnapshot into the gate.
+            #  Any other header is not understood (not found).
             m4 = re.search(marks[4][1], tail)
-            if m4:
-                blk = block_after(tail, m4.start())
-                rest = tail[tail.find(blk, m4.start()) + len(blk) + 1 :] if blk is not None else "?"
-                need(rest.strip() == "", "run_session: statements after the run_ended block")
+            m3s = re.search(r"(?:let\s+(mut\s+)?(\w+)\s*(?::[^=;]*)?=\s*)?write_snapshot\s*\(", tail)
+            if m4 and m3s:
+                snap_name = m3s.group(2)
+                need(snap_name is not None, "run_session: the result of write_snapshot is not bound by a `let` (expected `let _ = write_snapshot(..)`)")
+                stack, depth_ok = [], True
+                for i, c in enumerate(tail[: m4.start()]):
+                    if c == "{":
+                        stack.append(i)
+                    elif c == "}":
+                        if stack:
+                            stack.pop()
+                        else:
+                            depth_ok = False
+                need(depth_ok, "run_session: unbalanced braces in the closing steps")
+                headers = []
+                for b in stack:
+                    j = max(tail.rfind(";", 0, b), tail.rfind("}", 0, b), tail.rfind("{", 0, b))
+                    headers.append(re.sub(r"\s+", " ", tail[j + 1 : b]).strip())
+                gate = []
+                link_tests = 0
+                for h in headers:
+                    if re.fullmatch(r"if let Some\(link\) = continuity_run", h):
+                        link_tests += 1
+                    elif snap_name not in (None, "_") and re.search(r"\b%s\b" % re.escape(snap_name), h) and re.match(r"if\b", h) and not re.search(r"\b(is_err|Err)\b", h):
+                        if "SwSnapshot" not in gate:
+                            gate.append("SwSnapshot")
+                        if re.search(r"\bcontinuity_run\b", h):
+                            link_tests += 1
+                    elif re.search(r"write_snapshot\s*\(", h) and re.match(r"if\b", h) and not re.search(r"\b(is_err|Err)\b", h):
+                        if "SwSnapshot" not in gate:
+                            gate.append("SwSnapshot")
+                    else:
+                        need(False, "run_session: append_run_ended sits in a block whose header is not understood: `%s`" % h[:120])
+                need(link_tests == 1, "run_session: append_run_ended is not inside exactly one `if let Some(link) = continuity_run` test (%d)" % link_tests)
+                exit_gate = gate
+                # the closing step's position = the outermost block around the call; nothing but the closing brace after it
+                if stack:
+                    outer = stack[0]
+                    j = max(tail.rfind(";", 0, outer), tail.rfind("}", 0, outer))
+                    pos = [(q, k) for q, k in pos if k != 4] + [(j + 1, 4)]
+                    blk = block_after(tail, outer)
+                    rest = tail[outer + 1 + len(blk) + 1 :] if blk is not None else "?"
+                    need(rest.strip() == "", "run_session: statements after the run_ended block")
+                else:
+                    need(False, "run_session: append_run_ended is not guarded by the link test")
+            order = [k for _, k in sorted(pos)]
+
+    need(exit_gate is not None, "run_session: the exit gate (what append_run_ended is conditional on) was not determined")
 
     # ---------------------------------------------------------------- HTTP error text, slices on the run path
     prefix, sep, cap_ok = None, None, False
@@ -320,6 +371,8 @@ def main():
         f.write("Definition gen_returns : N := %d.\n" % (n_ret if n_ret is not None else 999))
         f.write("Definition gen_end_frames : N := %d.\n" % (n_end if n_end is not None else 999))
         f.write("Definition gen_end_frames_skipping : N := %d.\n" % (n_end_skip if n_end_skip is not None else 0))
+        f.write("(* run_session: the side writes whose failure suppresses append_run_ended (the blocks around the call, the use of write_snapshot's result) *)\n")
+        f.write("Definition gen_exit_gate : list side_write := %s.\n" % (coq_list(exit_gate) if exit_gate is not None else "[SwSnapshot; SwThreadCache; SwArtifacts; SwCheckpoints]"))
         f.write("(* the quoted HTTP error: format!(\"<prefix>{status}<sep>{body}\"), body verbatim => no cap *)\n")
         f.write("Definition gen_http_err_prefix : list N := %s.\n" % coq_list(prefix or []))
         f.write("Definition gen_http_err_sep : list N := %s.\n" % coq_list(sep or []))
@@ -339,6 +392,10 @@ def main():
         f.write("Lemma gen_guard_atomic : guard_atomic gen_guard = true.\n")
         f.write("Proof. vm_compute. reflexivity. Qed.\n")
         f.write("Lemma gen_exit_ok : gen_ok_run_lifecycle && lN_eqb gen_exit_order EXIT_ORDER && (gen_returns =? 0) && (gen_end_frames =? gen_end_frames_skipping) = true.\n")
+        f.write("Proof. vm_compute. reflexivity. Qed.\n")
+        f.write("Lemma gen_exit_gate_ok : gen_ok_run_lifecycle && gate_eqb gen_exit_gate EXIT_GATE = true.\n")
+        f.write("Proof. vm_compute. reflexivity. Qed.\n")
+        f.write("Lemma gen_exit_gate_unconditional : gate_unconditional gen_exit_gate = true.\n")
         f.write("Proof. vm_compute. reflexivity. Qed.\n")
         f.write("Lemma gen_http_err_ok : gen_ok_run_lifecycle && gen_http_err_verbatim && lN_eqb gen_http_err_prefix HTTP_ERR_PREFIX && lN_eqb gen_http_err_sep HTTP_ERR_SEP && cap_eqb gen_http_err_cap HTTP_ERR_CAP && (gen_run_path_slices =? 0) = true.\n")
         f.write("Proof. vm_compute. reflexivity. Qed.\n")
